@@ -428,6 +428,96 @@ def make_gfm(eng, spec):
     return body
 
 
+# ------------------------------------------------------------ figure-md (Sphinx): html_image is forced on only inside the directive
+
+
+def run_figure_md(html_image, front_matter, real=False):
+    """Real Sphinx build (dummy builder) of two pages.  Returns dict of observations."""
+    import io, os, sys, tempfile
+    from docutils import nodes
+    from sphinx.application import Sphinx
+    from sphinx.util.docutils import docutils_namespace, patch_docutils
+
+    saved = {}
+    if not real:
+        for name, mod in FIG.items():
+            saved[name] = sys.modules.get(name)
+            sys.modules[name] = mod
+    try:
+        with tempfile.TemporaryDirectory(prefix="symx_c17_") as d:
+            exts = ["colon_fence"] + (["html_image"] if html_image else [])
+            open(os.path.join(d, "conf.py"), "w").write("extensions = ['myst_parser']\nmyst_enable_extensions = %r\nsuppress_warnings = ['image.not_readable']\n" % (exts,))
+            fm = "---\nmyst:\n  words_per_minute: 100\n---\n\n" if front_matter else ""
+            open(os.path.join(d, "index.md"), "w").write(fm + "# Index\n\n<img src=\"before.png\" alt=\"b\">\n\n:::{figure-md} fig-target\n<img src=\"fig.png\" alt=\"f\" width=\"20px\">\n\nCaption *text*\n:::\n\n"
+                                                         "<img src=\"after.png\" alt=\"a\">\n\n```{toctree}\nother\n```\n")
+            open(os.path.join(d, "other.md"), "w").write("# Other\n\n<img src=\"other.png\" alt=\"o\">\n")
+            warn = io.StringIO()
+            with docutils_namespace(), patch_docutils(d):
+                app = Sphinx(d, d, os.path.join(d, "_build"), os.path.join(d, "_build", ".doctrees"), "dummy", status=None, warning=warn, freshenv=True, parallel=0)
+                app.build()
+                obs = {"config_exts": sorted(app.env.myst_config.enable_extensions), "warnings": warn.getvalue()}
+                for docname in ("index", "other"):
+                    tree = app.env.get_doctree(docname)
+                    obs[docname + "_images"] = sorted(im["uri"] for im in tree.findall(nodes.image))
+                    obs[docname + "_raw"] = sorted(r.astext() for r in tree.findall(nodes.raw))
+                    obs[docname + "_figures"] = len(list(tree.findall(nodes.figure)))
+            return obs
+    finally:
+        for name, mod in saved.items():
+            if mod is None:
+                sys.modules.pop(name, None)
+            else:
+                sys.modules[name] = mod
+
+
+def check_figure_md(obs, html_image):
+    want_exts = sorted(["colon_fence"] + (["html_image"] if html_image else []))
+    if obs["config_exts"] != want_exts:
+        return ("figure-md-changes-config", "enable_extensions of the project configuration is %r after the build, configured %r" % (obs["config_exts"], want_exts))
+    if obs["index_figures"] != 1 or "fig.png" not in obs["index_images"]:
+        return ("figure-md-image", "figure-md did not produce a figure with its image: %r" % (obs,))
+    outside = {"index": ["after.png", "before.png"], "other": ["other.png"]}
+    for doc, uris in outside.items():
+        got = [u for u in obs[doc + "_images"] if u != "fig.png"]
+        nraw = sum(1 for r in obs[doc + "_raw"] if "<img" in r)
+        if html_image and (got != uris or nraw):
+            return ("html-image-not-converted", "html_image on: page %s has images %r and %d raw <img> (expected %r converted)" % (doc, got, nraw, uris))
+        if not html_image and (got or nraw != len(uris)):
+            return ("html-image-converted-although-off", "html_image off: page %s has images %r and %d raw <img> (expected %d raw)" % (doc, got, nraw, len(uris)))
+    return None
+
+
+FIG = {}
+
+
+def make_figure_md(eng):
+    from harness import common_render as CR
+
+    CR.setup()
+    if not FIG:
+        FIG.update(load_instrumented(["myst_parser.mdit_to_docutils.sphinx_", "myst_parser.parsers.sphinx_", "myst_parser.sphinx_ext.directives", "myst_parser.sphinx_ext.main"], using=CR.R))
+    c = CR.Choice(eng)
+    state = {}
+    eng.witness_fn = lambda m: dict(state)
+
+    def body():
+        c.reset()
+        hi, fm = bool(c.choose(2)), bool(c.choose(2))
+        state.update(figure_md=[hi, fm])
+        try:
+            obs = run_figure_md(hi, fm)
+        except Exception as exc:  # noqa
+            eng.fail("sphinx-build-raises", "%s: %s" % (type(exc).__name__, str(exc)[:300]))
+        err = check_figure_md(obs, hi)
+        if err:
+            eng.fail(*err)
+        eng.passed(4)
+        eng.note("directive")
+        return "ok"
+
+    return body
+
+
 def families(tier, seed):
     q = tier == "quick"
     F = []
@@ -439,6 +529,8 @@ def families(tier, seed):
     for nval in ([2] if q else [2, 3]):
         F.append(Family("admonition/V%d" % nval, make_admonition, "<div class='admonition X' name=Y> with X, Y <=%d symbolic chars over 'a\"#: ', 5 title forms, 3 body forms, extension on/off" % nval,
                         args=dict(nval=nval, alphabet='a"#: '), nontrivial="directive", max_forks=60000))
+    F.append(Family("figure-md/sphinx", make_figure_md, "real Sphinx builds of two pages with a figure-md directive (which forces html_image on for its own body) x html_image configured on/off x front matter present/absent: <img> outside the directive "
+                    "converts iff html_image is configured, on the same and on the next page; the project configuration is unchanged", nontrivial="directive", max_forks=1000))
     F.append(Family("failure", make_failure, "tokenize_html raises ValueError/AssertionError/RecursionError/KeyError x 4 extension combinations", nontrivial="directive"))
     sig = "<>/ sStT\n"
     for tag in (["style", "xmp"] if q else GFM_TAGS):
@@ -474,6 +566,14 @@ class _Fail(Exception):
 
 
 def replay(label, witness):
+    if "figure_md" in witness:
+        hi, fm = witness["figure_md"]
+        try:
+            obs = run_figure_md(hi, fm, real=True)
+        except Exception as e:  # noqa
+            return ("C17/exception:%s" % type(e).__name__, "figure-md build raised %r" % (e,))
+        err = check_figure_md(obs, hi)
+        return ("C17/%s" % err[0], err[1]) if err else None
     import myst_parser.mdit_to_docutils.html_to_nodes as real
     import myst_parser.parsers.parse_html as rph
     import myst_parser.parsers.options as ropts
